@@ -512,8 +512,24 @@ func registerReflectModel(e *Engine) {
 		}
 		var add []Value
 		if xs, ok := a[1].(*SliceV); ok {
+			var et types.Type
+			if s.Typ != nil && s.Typ.GoType != nil {
+				if sl, ok := s.Typ.GoType.Underlying().(*types.Slice); ok {
+					et = sl.Elem()
+				}
+			}
 			for _, x := range st.sliceElems(xs) {
-				add = append(add, st.rpayload(asRVal(st, x)))
+				xv := asRVal(st, x)
+				p := st.rpayload(xv)
+				// a concrete value appended to a slice of interfaces is boxed
+				if _, isI := p.(*IfaceV); !isI && xv.Kind != rkInterface && et != nil && types.IsInterface(et) {
+					gt := xv.Typ.GoType
+					if gt == nil {
+						gt = kindGoType(xv.Kind)
+					}
+					p = &IfaceV{T: gt, V: p}
+				}
+				add = append(add, p)
 			}
 		}
 		return &RVal{Kind: rkSlice, Typ: s.Typ, Val: appendVals(st, cur, add)}
